@@ -698,12 +698,22 @@ func genCase(r *vproto.Rng, tier string) fcase {
 		if loose && c.w.path == 'F' && ncols > 0 && r.Intn(10) == 0 {
 			nv = r.Intn(ncols) // fewer values than fields
 		}
+		extra := 0
+		if loose && c.w.path == 'F' && r.Intn(12) == 0 {
+			// MORE values than fields: go-shp's WriteAttribute indexes dbfFields out of range - a panic AFTER the shape
+			// and the first len(fields) cells were written and BEFORE e.row++, so every later record of the file
+			// writes its cells into an earlier row (model: encodeG, theorem C16_end_to_end)
+			extra = 1 + r.Intn(2)
+		}
 		for j := 0; j < nv; j++ {
 			p := plans[j]
 			if loose && c.w.path == 'F' && r.Intn(15) == 0 { // a value of another type in that column
 				p = colPlan{kind: []string{"i", "f", "s"}[r.Intn(3)], numText: true}
 			}
 			rc.vals = append(rc.vals, genVal(r, p, widths[j]))
+		}
+		for j := 0; j < extra && nv == ncols; j++ {
+			rc.vals = append(rc.vals, genVal(r, colPlan{kind: []string{"i", "f", "s"}[r.Intn(3)], numText: true}, 10))
 		}
 		c.recs = append(c.recs, rc)
 	}
@@ -822,6 +832,15 @@ func corpus() []fcase {
 		recs: []rec{{P(0, 0), []val{iv(12345678901), sv("kept")}}, {P(1, 1), []val{iv(5), sv(strings.Repeat("z", 51))}}, {P(2, 2), []val{iv(6), sv("ok")}}}})
 	out = append(out, fcase{w: spec{path: 'S', sf: []sfield{{"G", "", "gP"}, {"N", "", "i"}, {"S", "", "s"}}}, r: spec{path: 'S', sf: []sfield{{"G", "", "gP"}, {"N", "", "i"}, {"S", "", "s"}}},
 		recs: []rec{{P(0, 0), []val{iv(12345678901), sv("lost")}}, {P(1, 1), []val{iv(5), sv(strings.Repeat("z", 51))}}, {P(2, 2), []val{iv(6), sv("ok")}}}})
+	// 10. EncodeFields with more values than columns: index panic after the cells were written, the encoder's cursor stays
+	// behind, the following records overwrite the beginnings of the cells of EARLIER rows and leave their own rows blank
+	out = append(out, fcase{w: spec{path: 'F', shpTyp: 1, ff: []ffield{{"N", 'N', 10, 0}, {"S", 'C', 50, 0}}}, r: spec{path: 'F', names: []string{"N", "S"}},
+		recs: []rec{{P(0, 0), []val{iv(1), sv("first")}}, {P(1, 1), []val{iv(22222), sv("second-long"), iv(7)}}, {P(2, 2), []val{iv(3), sv("3rd")}},
+			{P(3, 3), []val{iv(4), sv(strings.Repeat("w", 51)), sv("x"), sv("y")}}, {P(4, 4), []val{iv(55), sv("")}}}})
+	out = append(out, fcase{w: spec{path: 'F', shpTyp: 1, ff: nil}, r: spec{path: 'F'},
+		recs: []rec{{P(0, 0), []val{iv(1)}}, {P(1, 1), nil}, {P(2, 2), []val{sv("s"), fv(1.5)}}}})
+	out = append(out, fcase{w: spec{path: 'F', shpTyp: 1, ff: []ffield{{"V", 'F', 12, 3}}}, r: spec{path: 'S', sf: []sfield{{"G", "", "gP"}, {"V", "", "f"}}},
+		recs: []rec{{P(0, 0), []val{fv(1.25), fv(2.5)}}, {P(1, 1), []val{fv(-3.125)}}, {P(2, 2), []val{fv(4)}}}})
 	return out
 }
 
@@ -839,4 +858,5 @@ func gen(seed uint64, tier string) {
 	for i := 0; i < n; i++ {
 		fmt.Fprintln(out, genCase(r, tier).line())
 	}
+	genReflect(out, seed, tier)
 }
